@@ -14,14 +14,19 @@ for d in sorted(glob.glob(V + "/seeded/*")):
     ch = meta["checks"]
     caught = [k for k, v in ch.items() if isinstance(v, dict) and v["result"] == "caught"]
     missed = [k for k, v in ch.items() if isinstance(v, dict) and v["result"] == "missed"]
-    if name.split("-")[0] in missed:
+    if name.startswith("R3-"):        # round 3: every claimed check was run; list the named-but-quiet ones
+        missed = meta.get("named_but_quiet", [])
+        if not caught:
+            own_missed.append(name)
+    elif name.split("-")[0] in missed:
         own_missed.append(name)
     cut = lambda t, k: (t[:k - 3] + "...") if len(t) > k else t
     summ = cut((meta.get("summary") or "").replace("|", "/").replace("\n", " "), 170)
     need = cut((meta.get("needs") or "").replace("|", "/").replace("\n", " "), 150)
     rows.append(f"| {name} | {summ} | {need} | {', '.join(caught)} | {', '.join(missed) or '–'} |")
 table = (f"{n} changes are stored (`-m1/-m2`: first round, `-r2m1/-r2m2`: second round asking for harder changes: multi-step\n"
-         "sequences, cooperating sites, rare configurations, numerical coincidences). "
+         "sequences, cooperating sites, rare configurations, numerical coincidences; `R3-<region>-mK`: third round, three changes per\n"
+         "source file, ALL 20 checks run against each, last column = properties the author named whose check stayed quiet). "
          + ("Every change is caught by the check of the property it was written for"
             + (f", except {', '.join(own_missed)} (caught by the checks listed)" if own_missed else "") + ".\n\n")
          + "| seed | change | needs | caught by | tried, not caught |\n|---|---|---|---|---|\n" + "\n".join(rows) + "\n")
